@@ -113,6 +113,7 @@ def drive(prop_name, cases, procs=16, chunks=8):
     """Run prop.run_case over all cases in worker processes.  Returns list of
     record lists aligned with cases.  A driver exception is a machinery failure."""
     prop = importlib.import_module('harness.props.' + prop_name)
+    procs = int(os.environ.get('VERIF_PROCS') or procs)         # (VERIF_PROCS=1: everything in this process)
     procs = max(1, min(procs, getattr(prop, 'MAX_PROCS', procs), len(cases)))
     results = [None] * len(cases)
     if procs == 1 or getattr(prop, 'IN_PROCESS', False):
